@@ -76,8 +76,98 @@ def gen_notes(repo):
     out.append("end Mingus.Gen.Notes")
     return "\n".join(out) + "\n"
 
+# ---------------------------------------------------------------- keys
+def gen_keys(repo):
+    t = parse(repo, "mingus/core/keys.py")
+    keys = lit(module_assign(t, "keys"))
+    base = lit(module_assign(t, "base_scale"))
+    if not all(isinstance(c, tuple) and len(c) == 2 for c in keys):
+        raise Shape("keys is not a list of couples")
+    out = ["namespace Mingus.Gen.Keys"]
+    out.append("def keys : List (List Char × List Char) := " + llist("(%s, %s)" % (lstr(a), lstr(b)) for a, b in keys))
+    out.append("def baseScale : List Char := " + llist(lchar(c[0]) for c in base))
+    out.append("end Mingus.Gen.Keys")
+    return "\n".join(out) + "\n"
+
+# ---------------------------------------------------------------- intervals
+def is_call(node, fname=None):
+    return isinstance(node, ast.Call) and (fname is None or (isinstance(node.func, ast.Name) and node.func.id == fname))
+
+def body_wo_doc(fn):
+    b = fn.body
+    if b and isinstance(b[0], ast.Expr) and isinstance(getattr(b[0], "value", None), ast.Constant) and isinstance(b[0].value.value, str):
+        return b[1:]
+    return b
+
+def gen_intervals(repo):
+    t = parse(repo, "mingus/core/intervals.py")
+    fns = {n.name: n for n in t.body if isinstance(n, ast.FunctionDef)}
+    # diatonic functions: def second(note, key): return interval(key, note, 1)
+    degree = {}
+    for name in ["second", "third", "fourth", "fifth", "sixth", "seventh"]:
+        b = body_wo_doc(fns[name])
+        if len(b) != 1 or not isinstance(b[0], ast.Return) or not is_call(b[0].value, "interval"):
+            raise Shape("%s is not `return interval(key, note, k)`" % name)
+        a = b[0].value.args
+        if [getattr(x, "id", None) for x in a[:2]] != ["key", "note"]:
+            raise Shape("%s: unexpected interval() arguments" % name)
+        degree[name] = lit(a[2])
+    # constructors
+    ctors, aliases = [], []
+    LOOP = "augment_or_diminish_until_the_interval_is_right"
+    for name, fn in fns.items():
+        if not (name.startswith(("minor_", "major_", "perfect_", "augmented_")) and [a.arg for a in fn.args.args] == ["note"]):
+            continue
+        if name.endswith("_unison"):
+            continue
+        b = body_wo_doc(fn)
+        if len(b) == 1 and isinstance(b[0], ast.Return) and is_call(b[0].value) and isinstance(b[0].value.func, ast.Name) \
+           and b[0].value.func.id in fns and len(b[0].value.args) == 1 and getattr(b[0].value.args[0], "id", None) == "note":
+            aliases.append((name, b[0].value.func.id))
+            continue
+        # x = second(note[0], "C"); return LOOP(note, x, N)
+        if len(b) == 2 and isinstance(b[0], ast.Assign) and is_call(b[0].value) and isinstance(b[1], ast.Return) and is_call(b[1].value, LOOP):
+            var = b[0].targets[0].id
+            call = b[0].value
+            dfn = call.func.id
+            if dfn not in degree:
+                raise Shape("%s: first call is not a diatonic function" % name)
+            a0, a1 = call.args
+            if not (isinstance(a0, ast.Subscript) and getattr(a0.value, "id", None) == "note" and lit(a0.slice) == 0 and lit(a1) == "C"):
+                raise Shape("%s: diatonic call is not f(note[0], 'C')" % name)
+            r = b[1].value.args
+            if not (getattr(r[0], "id", None) == "note" and getattr(r[1], "id", None) == var):
+                raise Shape("%s: loop call arguments" % name)
+            ctors.append((name, degree[dfn], lit(r[2])))
+            continue
+        raise Shape("constructor %s has an unrecognised body" % name)
+    # unisons
+    def ret_expr(name):
+        b = body_wo_doc(fns[name])
+        if len(b) != 1 or not isinstance(b[0], ast.Return):
+            raise Shape("%s body" % name)
+        return ast.unparse(b[0].value)
+    unis = [(n, ret_expr(n)) for n in ["minor_unison", "major_unison", "augmented_unison"]]
+    fs = lit(local_assign(fns["determine"], "fifth_steps"))
+    sl_node = local_assign(fns["from_shorthand"], "shorthand_lookup")
+    sl = []
+    for row in sl_node.elts:
+        d, u, dn = row.elts
+        sl.append((lit(d), u.id, dn.id))
+    out = ["namespace Mingus.Gen.Intervals"]
+    out.append("def degreeFns : List (List Char × Nat) := " + llist("(%s, %d)" % (lstr(k), v) for k, v in degree.items()))
+    out.append("def ctorTable : List (List Char × Nat × Int) := " + llist("(%s, %d, %s)" % (lstr(n), d, lint(sm)) for n, d, sm in ctors))
+    out.append("def aliasTable : List (List Char × List Char) := " + llist("(%s, %s)" % (lstr(a), lstr(b)) for a, b in aliases))
+    out.append("def unisonBodies : List (List Char × List Char) := " + llist("(%s, %s)" % (lstr(a), lstr(b)) for a, b in unis))
+    out.append("def fifthSteps : List (List Char × List Char × Int) := " + llist("(%s, %s, %s)" % (lstr(a), lstr(b), lint(c)) for a, b, c in fs))
+    out.append("def shorthandLookup : List (Char × List Char × List Char) := " + llist("(%s, %s, %s)" % (lchar(d), lstr(u), lstr(dn)) for d, u, dn in sl))
+    out.append("end Mingus.Gen.Intervals")
+    return "\n".join(out) + "\n"
+
 GENERATORS = {
     "Notes": gen_notes,
+    "Keys": gen_keys,
+    "Intervals": gen_intervals,
 }
 
 def main():
